@@ -31,6 +31,11 @@ func clusterHeader(tt, tc int) pmtiles.HeaderV3 {
 }
 
 func (C13) Gen(r *core.Rng, tier string, emit func(string)) {
+	if tier == "thorough" {
+		emit = cliDup(emit, []string{"cluster"}, 7, 200)
+	} else {
+		emit = cliDup(emit, []string{"cluster"}, 7, 20)
+	}
 	nRes, nCl := 3000, 150
 	if tier == "thorough" {
 		nRes, nCl = 100000, 4000
@@ -81,7 +86,7 @@ func (C13) Gen(r *core.Rng, tier string, emit func(string)) {
 	}
 }
 
-func clusterOnce(dedup bool, ic pmtiles.Compression, tt, tc int, data []byte, dirs []parsedDir) (readArchive, readArchive, error, error) {
+func clusterOnce(cli bool, dedup bool, ic pmtiles.Compression, tt, tc int, data []byte, dirs []parsedDir) (readArchive, readArchive, error, error) {
 	h := clusterHeader(tt, tc)
 	// center zoom inside the zoom range of the tiles, zoom bytes truthful (cluster takes them from the entries anyway)
 	var flat []pmtiles.EntryV3
@@ -105,7 +110,7 @@ func clusterOnce(dedup bool, ic pmtiles.Compression, tt, tc int, data []byte, di
 	path := scratchFile(".pmtiles")
 	os.WriteFile(path, ab, 0o644)
 	defer os.Remove(path)
-	if err := pmtiles.Cluster(discardLogger, path, dedup); err != nil {
+	if err := opCluster(cli, path, dedup); err != nil {
 		return before, readArchive{}, err, nil
 	}
 	b, err := os.ReadFile(path)
@@ -117,7 +122,8 @@ func clusterOnce(dedup bool, ic pmtiles.Compression, tt, tc int, data []byte, di
 }
 
 func (C13) RunGo(line string) string {
-	t := strings.Fields(line)
+	cliMode, t := splitCLI(strings.Fields(line))
+	_ = cliMode
 	switch t[0] {
 	case "finroot":
 		return C05{}.RunGo(line)
@@ -135,7 +141,7 @@ func (C13) RunGo(line string) string {
 		if !ok || len(dirs) == 0 {
 			return "bad-case"
 		}
-		_, after, err, _ := clusterOnce(t[1] == "1", ic, tt, tc, data, dirs)
+		_, after, err, _ := clusterOnce(cliMode, t[1] == "1", ic, tt, tc, data, dirs)
 		if err != nil {
 			return "cluster-error " + strings.ReplaceAll(trunc(err.Error(), 80), " ", "_")
 		}
@@ -165,7 +171,8 @@ func (C13) NonTrivial(line string) bool {
 }
 
 func (C13) Branch(line, goOut string) string {
-	t := strings.Fields(line)
+	cliMode, t := splitCLI(strings.Fields(line))
+	_ = cliMode
 	if t[0] == "finroot" {
 		return "finroot " + strings.SplitN(goOut, " ", 2)[0]
 	}
@@ -176,7 +183,8 @@ func (C13) Branch(line, goOut string) string {
 }
 
 func (C13) Oracle(line, goOut string) string {
-	t := strings.Fields(line)
+	cliMode, t := splitCLI(strings.Fields(line))
+	_ = cliMode
 	if strings.HasPrefix(goOut, "panic") {
 		return goOut
 	}
@@ -197,7 +205,7 @@ func (C13) Oracle(line, goOut string) string {
 		}
 		var afters [2]readArchive
 		for i, dd := range []bool{true, false} {
-			before, after, err, verr := clusterOnce(dd, ic, tt, tc, data, dirs)
+			before, after, err, verr := clusterOnce(cliMode, dd, ic, tt, tc, data, dirs)
 			if err != nil {
 				return "cluster failed on a valid unclustered archive: " + err.Error()
 			}
